@@ -24,7 +24,7 @@ PROP = {
         "files": _E1 + ["lnwallet/c01_test.go", "lnwallet/c02_test.go"],
         "shards": {"quick": 12, "thorough": 16},
         "watchdog": {"quick": 900, "thorough": 5400},
-        "floors": {"quick": {"nontrivial": 250, "forks": 10000, "restarts": 1000},
-                   "thorough": {"nontrivial": 5000}},
+        "floors": {"quick": {"nontrivial": 200, "forks": 7000, "restarts": 800},
+                   "thorough": {"nontrivial": 1800}},
     }],
 }
